@@ -416,6 +416,9 @@ func runCheck(id, tier string, pl plan) int {
 	var harnessErr []string
 	var mu sync.Mutex
 	for pi, p := range pl.Parts {
+		if only := os.Getenv("VERIF_ONLY_PROFILE"); only != "" && p.Profile != only {
+			continue // (development aid: which part of a plan catches a given change)
+		}
 		var wg sync.WaitGroup
 		partBudget := 0
 		if budget > 0 {
